@@ -588,3 +588,190 @@ theorem build_root (db : DB) (fuel root : Nat) (observers : List Nat) (h : (buil
     · exact loopWith_nodes_mono db (f + 1) f _ root h2
 
 end Pxv.Dep
+
+namespace Pxv.Dep
+
+/-- an edge the database justifies: a constructor feeding a component, a component and its error handler, a component and one of
+    its transformers -/
+def Just (db : DB) (e : Nat × Nat) : Prop :=
+  e.1 ∈ db.depsOf e.2 ∨ db.ehOf e.1 = some e.2 ∨ e.2 ∈ db.trOf e.1
+
+def ItemJust (db : DB) (it : Item) : Prop :=
+  match it.2 with
+  | none => True
+  | some (true, p) => db.ehOf p = some it.1
+  | some (false, ch) => it.1 ∈ db.depsOf ch ∧ db.isCompute ch = true
+
+/-- every edge of the graph, and every edge a pending work item will add, is justified by the database -/
+structure EInv (db : DB) (s : St) : Prop where
+  edges : ∀ e ∈ s.edges, Just db e
+  work : ∀ it ∈ s.work, ItemJust db it
+
+theorem mem_addEdge {es : List (Nat × Nat)} {e x : Nat × Nat} : x ∈ addEdge es e ↔ x ∈ es ∨ x = e := by
+  unfold addEdge
+  split
+  · rename_i h
+    have hc : e ∈ es := by simpa using h
+    constructor
+    · exact Or.inl
+    · rintro (h | rfl)
+      · exact h
+      · exact hc
+  · simp
+
+theorem mem_foldl_pushItem (c : Nat) : ∀ (ds : List Nat) (w : List Item) (it : Item),
+    it ∈ ds.foldl (fun w d => pushItem w (d, some (false, c))) w → it ∈ w ∨ ∃ d ∈ ds, it = (d, some (false, c)) := by
+  intro ds
+  induction ds with
+  | nil => intro w it h; exact Or.inl h
+  | cons d ds ih =>
+    intro w it h
+    simp only [List.foldl_cons] at h
+    rcases ih _ it h with h1 | ⟨d', hd', rfl⟩
+    · rcases mem_pushItem.1 h1 with h2 | rfl
+      · exact Or.inl h2
+      · exact Or.inr ⟨d, List.mem_cons_self .., rfl⟩
+    · exact Or.inr ⟨d', List.mem_cons_of_mem _ hd', rfl⟩
+
+theorem einv_visit_tail {db : DB} (s1 : St) (c : Nat) (h1 : EInv db s1) :
+    EInv db (if s1.processed.contains c then s1
+      else
+        let s2 := if db.isCompute c then
+            { s1 with work := (db.depsOf c).foldl (fun w d => pushItem w (d, some (false, c))) s1.work }
+          else s1
+        { s2 with processed := s2.processed ++ [c] }) := by
+  split
+  · exact h1
+  · simp only []
+    by_cases hcomp : db.isCompute c = true
+    · simp only [hcomp, if_true]
+      refine ⟨h1.edges, ?_⟩
+      intro it' hit'
+      rcases mem_foldl_pushItem c _ _ it' hit' with h2 | ⟨d, hd, rfl⟩
+      · exact h1.work it' h2
+      · exact ⟨hd, hcomp⟩
+    · have hcf : db.isCompute c = false := by simpa using hcomp
+      simp only [hcf, Bool.false_eq_true, if_false]
+      exact ⟨h1.edges, h1.work⟩
+
+theorem einv_visit {db : DB} {s : St} {it : Item} (h : EInv db s) (hit : ItemJust db it) : EInv db (visit db s it) := by
+  obtain ⟨c, nb⟩ := it
+  rcases nb with _ | ⟨b, q⟩
+  · exact einv_visit_tail { s with nodes := addNode s.nodes c } c ⟨h.edges, h.work⟩
+  · cases b
+    · refine einv_visit_tail { s with nodes := addNode s.nodes c, edges := addEdge s.edges (c, q) } c ⟨?_, h.work⟩
+      intro e he
+      rcases mem_addEdge.1 he with he | rfl
+      · exact h.edges e he
+      · exact Or.inl hit.1
+    · refine einv_visit_tail { s with nodes := addNode s.nodes c, edges := addEdge s.edges (q, c) } c ⟨?_, h.work⟩
+      intro e he
+      rcases mem_addEdge.1 he with he | rfl
+      · exact h.edges e he
+      · exact Or.inr (Or.inl hit)
+
+end Pxv.Dep
+
+namespace Pxv.Dep
+
+theorem einv_visitAll {db : DB} : ∀ (fuel : Nat) (s : St), EInv db s → EInv db (visitAll db fuel s) := by
+  intro fuel
+  induction fuel with
+  | zero => intro s h; exact h
+  | succ f ih =>
+    intro s h
+    unfold visitAll
+    split
+    · exact h
+    · rename_i it hl
+      have hw := work_eq_of_getLast hl
+      have hit : ItemJust db it := h.work it (by rw [hw]; simp)
+      have hs : EInv db { s with work := s.work.dropLast } :=
+        ⟨h.edges, fun it' hit' => h.work it' (by rw [hw]; exact List.mem_append.2 (Or.inl hit'))⟩
+      exact ih _ (einv_visit hs hit)
+
+theorem einv_heStep {db : DB} {s : St} (h : EInv db s) (c : Nat) : EInv db (heStep db s c) := by
+  unfold heStep
+  split
+  · exact h
+  · by_cases hcomp : db.isCompute c = true
+    · simp only [hcomp, if_true]
+      cases he : db.ehOf c with
+      | none => exact ⟨h.edges, h.work⟩
+      | some e =>
+        refine ⟨h.edges, ?_⟩
+        intro it hit
+        rcases mem_pushItem.1 hit with h1 | rfl
+        · exact h.work it h1
+        · exact he
+    · have hcf : db.isCompute c = false := by simpa using hcomp
+      simp only [hcf, Bool.false_eq_true, if_false]
+      exact ⟨h.edges, h.work⟩
+
+theorem einv_trFold {db : DB} (c : Nat) : ∀ (ts : List Nat) (s : St), (∀ t ∈ ts, t ∈ db.trOf c) → EInv db s →
+    EInv db (ts.foldl (fun s t => { s with nodes := addNode s.nodes t, edges := addEdge s.edges (c, t) }) s) := by
+  intro ts
+  induction ts with
+  | nil => intro s _ h; exact h
+  | cons t ts ih =>
+    intro s hts h
+    simp only [List.foldl_cons]
+    apply ih _ (fun t' ht' => hts t' (List.mem_cons_of_mem _ ht'))
+    refine ⟨?_, h.work⟩
+    intro e he
+    rcases mem_addEdge.1 he with he | rfl
+    · exact h.edges e he
+    · exact Or.inr (Or.inr (hts t (List.mem_cons_self ..)))
+
+theorem einv_atStep {db : DB} {s : St} (h : EInv db s) (c : Nat) : EInv db (atStep db s c) := by
+  unfold atStep
+  split
+  · exact h
+  · by_cases hcomp : db.isCompute c = true
+    · simp only [hcomp, if_true]
+      have := einv_trFold (db := db) c (db.trOf c) s (fun t ht => ht) h
+      exact ⟨this.edges, this.work⟩
+    · have hcf : db.isCompute c = false := by simpa using hcomp
+      simp only [hcf, Bool.false_eq_true, if_false]
+      exact ⟨h.edges, h.work⟩
+
+theorem einv_round {db : DB} (vf : Nat) (s : St) (h : EInv db s) : EInv db (round db vf s).1 := by
+  unfold round
+  simp only []
+  have h1 := einv_visitAll (db := db) vf s h
+  have foldHe : ∀ (l : List Nat) (s0 : St), EInv db s0 → EInv db (l.foldl (heStep db) s0) := by
+    intro l; induction l with
+    | nil => intro s0 h0; exact h0
+    | cons a as ih => intro s0 h0; exact ih _ (einv_heStep h0 a)
+  have foldAt : ∀ (l : List Nat) (s0 : St), EInv db s0 → EInv db (l.foldl (atStep db) s0) := by
+    intro l; induction l with
+    | nil => intro s0 h0; exact h0
+    | cons a as ih => intro s0 h0; exact ih _ (einv_atStep h0 a)
+  rw [handleErrors_eq, addTransformers_eq]
+  exact foldAt _ _ (foldHe _ _ h1)
+
+theorem einv_loopWith {db : DB} (vf : Nat) : ∀ (fuel : Nat) (s : St), EInv db s → EInv db (loopWith (round db vf) fuel s).1 := by
+  intro fuel
+  induction fuel with
+  | zero => intro s h; exact h
+  | succ f ih =>
+    intro s h
+    unfold loopWith
+    simp only []
+    have := einv_round vf s h
+    split
+    · exact this
+    · exact ih _ this
+
+/-- **no spurious edges**: every edge of the dependency graph is justified by the database — a constructor feeding a component
+    that needs its output, a component and its error handler, a component and one of its transformers — whether or not the
+    loop ran to its end -/
+theorem build_edges_justified (db : DB) (fuel root : Nat) (observers : List Nat) :
+    ∀ e ∈ (build db fuel root observers).1.edges, Just db e := by
+  unfold build
+  refine (einv_loopWith fuel fuel _ ⟨(fun e he => by cases he), ?_⟩).edges
+  intro it hit
+  simp only [List.mem_append, List.mem_map, List.mem_singleton] at hit
+  rcases hit with ⟨o, _, rfl⟩ | rfl <;> exact trivial
+
+end Pxv.Dep
